@@ -14,7 +14,10 @@ SPEC = dict(
          'distinct = hash of the (operation kind, argument) sequence resp. of the enumerated input; non-trivial = reached >=2 elements and executed >=1 removal (sort: n>=2). '
          'After every operation: size, isEmpty, forward and backward iteration of (key, id, guard id), front/back (const and non-const), operator T*, capacity() >= size() and >= reserved, '
          'find for every universe key (first match), the returned iterator / reference, List ==/!= in both directions against the second list vs model equality, structural walk '
-         '(links, free list, live + free == 4 * blocks). sort oracle: ascending and multiset-equal on (key, id) to the list before.',
+         '(links, free list acyclic and disjoint from the live items, every live and free item inside a block of the list and not overlapping another one, live + free == slots of '
+         'the blocks with the slot count of each block derived from its allocation size under ASan - no slot count is assumed; Array begin/end/capacity coherent). When the private '
+         'members the walker reads cannot be compiled against (renamed), the harness is built with -DVERIF_NO_PRIVATE: all public-API oracles stay, the walker is absent (evidence '
+         'field degraded_no_private_access). sort oracle: ascending and multiset-equal on (key, id) to the list before.',
     assumptions=['ASan/UBSan red zones; library ASSERTs enabled (-DDEBUG)',
                  'self-assignment / self-argument operations and element arguments aliasing the container are not generated here (property C04)',
                  'PoolList::front()/back() cannot be instantiated and are not called; first/last are observed through begin() and --end()',
@@ -33,14 +36,14 @@ SPEC = dict(
         job('plist-O2', 'h_seq', 'plist', variant='plain', cases={Q: 2000, T: 15000}, procs=8, args=['--start', '500000']),
         job('sort-exh-O2', 'h_seq', 'sort-exh', variant='plain', cases=-1, scale={Q: 6, T: 8}, procs=8),
     ],
-    floors={Q: dict(ops=1500000, finds=20000000, structure_walks=1700000, op_sort=35000, sort_permutations=6788, sort_duplicate_sequences=19682, growths=70000, sweep_configurations=52236,
+    floors={Q: dict(ops=1500000, finds=20000000, structure_walks=1700000, walks_with_block_sizes=1000000, op_sort=35000, sort_permutations=6788, sort_duplicate_sequences=19682, growths=70000, sweep_configurations=52236,
                     op_insert_list=18000, op_append_block=38000, op_append_array=33000, op_resize=40000, op_reserve=47000, op_remove_index=39000, op_remove_ref=15000, op_remove_value=40000,
                     op_copy_construct=30000, op_assign=30000, op_swap=60000, eq_true_nonempty=50000, eq_false_same_size=39000, max_size=1500,
                     **{'set:append_arities': 8, 'set:remove_index_classes': 4, 'set:resize_classes': 4, 'set:reserve_classes': 6, 'set:copy_classes': 4, 'set:swap_classes': 9,
-                       'set:sort_patterns': 7, 'set:insert_positions': 5, 'set:equality_relations': 4}),
-            T: dict(ops=12000000, finds=180000000, structure_walks=14000000, op_sort=280000, sort_permutations=92468, sort_duplicate_sequences=19682, growths=350000, sweep_configurations=52236,
+                       'set:sort_patterns': 7, 'set:insert_positions': 5, 'set:equality_relations': 4, 'set:slots_per_block': 1}),
+            T: dict(ops=12000000, finds=180000000, structure_walks=14000000, walks_with_block_sizes=4000000, op_sort=280000, sort_permutations=92468, sort_duplicate_sequences=19682, growths=350000, sweep_configurations=52236,
                     op_insert_list=160000, op_append_block=310000, op_append_array=270000, op_resize=320000, op_reserve=320000, op_remove_index=320000, op_remove_ref=150000, op_remove_value=420000,
                     op_copy_construct=300000, op_assign=300000, op_swap=640000, eq_true_nonempty=460000, eq_false_same_size=340000, max_size=1900,
                     **{'set:append_arities': 8, 'set:remove_index_classes': 4, 'set:resize_classes': 4, 'set:reserve_classes': 6, 'set:copy_classes': 4, 'set:swap_classes': 9,
-                       'set:sort_patterns': 7, 'set:insert_positions': 5, 'set:equality_relations': 4})},
+                       'set:sort_patterns': 7, 'set:insert_positions': 5, 'set:equality_relations': 4, 'set:slots_per_block': 1})},
 )
